@@ -382,7 +382,7 @@ def strat(draw, tier):
         if k > 1:
             case["sched"] = draw(scen.schedules())
     else:
-        case = draw(scen.pyramid_cases(3 if tier == "quick" else 5))
+        case = draw(scen.pyramid_cases(3 if tier == "quick" else 5, deep_one_in=12))
         case["stage"] = stage
     case["fail_idx"] = draw(st.one_of(st.integers(0, 2000), st.integers(0, 2)))
     case["exc"] = draw(st.sampled_from(["runtime", "runtime", "os", "value", "key", "plain", "builtin-os", "builtin-value", "empty", "kill"]))
